@@ -22,7 +22,7 @@ var mixParams = []string{"p1", "p2", "p3"}
 var mixResps = []string{"r1", "r2", "r3"}
 var mixSecDefs = []string{"apiKey", "oauth", "basic"}
 var mixTags = []string{"pets", "store", "user"}
-var mixExt = []string{"x-a", "x-b", "x-c"}
+var mixExt = []string{"x-a", "x-b", "x-c", "x-C", "X-b", "x-Rate-Limit", "x-rate-limit"}
 var mixMedia = []string{"application/json", "application/xml", "text/plain"}
 var mixSchemes = []string{"http", "https", "ws"}
 var mixOpIDs = []string{"list", "get", "create", "delete", "update", "find"}
@@ -39,7 +39,7 @@ func genMixinDoc(r *R, tag string, usedIDs map[string]bool, idlessPct int) obj {
 		return out
 	}
 	ext := func(m obj) {
-		for _, k := range sub(mixExt, 30) {
+		for _, k := range sub(mixExt, 22) {
 			m[k] = tag + k
 		}
 	}
